@@ -248,3 +248,113 @@ class SearchExact(Harness):
         if got2 != [info[i][0] for i in want]:
             return {"observed": got2, "clause": f"UID SEARCH {inp['prog']} == {[info[i][0] for i in want]}"}
         return None
+
+
+class Answered(Harness):
+    """Every command gets exactly one tagged OK/NO/BAD, last, CRLF-terminated, and never through the watchdog (C06)."""
+
+    scope = "5-message INBOX, empty mailbox, missing mailbox, \\Noselect placeholder (also after restart); out-of-range / 0 / * sets for FETCH, STORE, COPY, SEARCH, UID forms; ~45 commands"
+    exhaustive = False
+
+    CMDS = [
+        "NOOP", "CHECK", "FETCH 99 FLAGS", "FETCH 0 FLAGS", "FETCH 6:7 FLAGS", "FETCH 1:* FLAGS", "FETCH * FLAGS", "UID FETCH 99 FLAGS", "UID FETCH 99:* FLAGS",
+        "STORE 99 +FLAGS (\\Seen)", "STORE 0 +FLAGS (\\Seen)", "UID STORE 99 +FLAGS (\\Seen)", "STORE 1 +FLAGS (\\Recent)", "COPY 99 other", "COPY 1 nosuch", "UID COPY 99 other",
+        "COPY 1:2 other", "SEARCH 99", "SEARCH 0", "SEARCH UID 99", "UID SEARCH 1:*", "SEARCH NOT 99", "EXPUNGE", "UID EXPUNGE 99", "MOVE 99 other", "MOVE 1 nosuch",
+        "SELECT nosuch", "EXAMINE nosuch", "STATUS nosuch (MESSAGES)", "STATUS placeholder (MESSAGES)", "SELECT placeholder", "APPEND nosuch {3}\r\nabc", "DELETE nosuch", "RENAME nosuch x",
+        "SUBSCRIBE nosuch", "LIST \"\" *", "LSUB \"\" *", "CREATE inbox", "DELETE inbox", "SELECT empty", "FETCH * FLAGS", "FETCH 1 FLAGS", "SEARCH *", "STORE * +FLAGS (\\Seen)", "CLOSE",
+    ]
+
+    def inputs(self, tier, seed):
+        for restart in (False, True):
+            yield {"restart": restart}
+
+    def check(self, inp):
+        import re
+
+        async def go():
+            async with World({"inbox": 5, "other": 1, "empty": 0, "placeholder/child": 1}) as w:
+                a = w.session("a")
+                await a.cmd("SELECT inbox")
+                await a.cmd("SUBSCRIBE placeholder")
+                await a.cmd("DELETE placeholder")  # has a child: becomes \\Noselect
+                if inp["restart"]:
+                    await w.restart()
+                    a = w.session("a")
+                await a.cmd("SELECT inbox")
+                res = []
+                import time
+
+                for c in self.CMDS:
+                    t0 = time.monotonic()
+                    try:
+                        out = await a.cmd(c)
+                    except Exception as e:
+                        out = [f"EXC {type(e).__name__}: {e}"]
+                    res.append((c, f"a{a.n}", out, time.monotonic() - t0))
+                    if c == "SELECT empty":
+                        pass
+                return res
+
+        for c, tag, out, dt in run(go(), timeout=400):
+            tagged = [l for l in out if l.startswith(tag + " ")]
+            if any(l.startswith("EXC") for l in out):
+                return {"observed": out[-1], "clause": f"`{c}`: the handler answers instead of raising"}
+            if len(tagged) != 1 or out[-1] != tagged[0]:
+                return {"observed": out[-3:], "clause": f"`{c}`: exactly one tagged line, after all untagged data"}
+            if not re.match(re.escape(tag) + r" (OK|NO|BAD) ", tagged[0]) or not tagged[0].endswith("\r\n"):
+                return {"observed": tagged[0], "clause": f"`{c}`: tagged OK/NO/BAD line ending in CRLF"}
+            if "timed out" in tagged[0] or dt > 3.0:
+                return {"observed": {"reply": tagged[0], "seconds": round(dt, 1)}, "clause": f"`{c}`: the outcome is not produced by the command watchdog"}
+        return None
+
+
+class UidValidity(Harness):
+    """A name deleted and created again gets a larger UIDVALIDITY, also across a restart (C02 e)."""
+
+    scope = "create/delete/recreate of one mailbox with 0..2 restarts inserted at each position"
+    exhaustive = True
+
+    def inputs(self, tier, seed):
+        import itertools
+
+        for rs in itertools.product((False, True), repeat=3):
+            yield {"restart_after": list(rs)}
+
+    def check(self, inp):
+        import re
+
+        async def vv(sess, name):
+            out = await sess.cmd(f"SELECT {name}")
+            for l in out:
+                m = re.search(r"UIDVALIDITY (\d+)", l)
+                if m:
+                    return int(m.group(1))
+            return None
+
+        async def go():
+            async with World({"inbox": 1}) as w:
+                a = w.session("a")
+                seen = []
+                await a.cmd("CREATE proj")
+                seen.append(await vv(a, "proj"))
+                await a.cmd("SELECT inbox")
+                if inp["restart_after"][0]:
+                    await w.restart()
+                    a = w.session("a2")
+                await a.cmd("DELETE proj")
+                if inp["restart_after"][1]:
+                    await w.restart()
+                    a = w.session("a3")
+                await a.cmd("CREATE proj")
+                seen.append(await vv(a, "proj"))
+                await a.cmd("SELECT inbox")
+                if inp["restart_after"][2]:
+                    await w.restart()
+                    a = w.session("a4")
+                seen.append(await vv(a, "proj"))
+                return seen
+
+        first, second, third = run(go())
+        if None in (first, second, third) or not (second > first) or third != second:
+            return {"observed": [first, second, third], "clause": "recreated mailbox gets a larger UIDVALIDITY; otherwise it does not change"}
+        return None
